@@ -672,6 +672,15 @@ int32 dtlsChkReplayWindow(ssl_t *ssl, unsigned char *seq64)
         if (dtlsCompareEpoch(ssl->rec.epoch, ssl->expectedEpoch) >= 0 &&
             lastSeq > 0)
         {
+            if (ssl->hsState == SSL_HS_DONE &&
+                dtlsCompareEpoch(ssl->rec.epoch, ssl->expectedEpoch) == 0)
+            {
+                /* The handshake is over and this is the current epoch: the
+                   first record of this epoch (the peer's FINISHED) has
+                   already been accepted, so this is a replay of it.  It must
+                   not reopen the window for records already seen. */
+                return 0;
+            }
             ssl->dtlsBitmap = 0;
             return 1; /* epoch shift */
         }
